@@ -228,14 +228,15 @@ theorem onStart_len {P : List Bytes} (s : HtmlSt) (n d : Bytes) (hP : PInv P s) 
     have hlen := enter_len s.visitor d
     have hpath := pathOf_enter s.visitor d
     obtain ⟨hn1, hn2⟩ := enter_names s.visitor d
-    have hpinv : ∀ stk, PInv P ({ s with enter := (s.visitor.enter d).1.1, leave := (s.visitor.enter d).1.2.1,
-        visitor := (s.visitor.enter d).2, stack := stk } : HtmlSt) :=
-      fun stk => ⟨hpath.trans hP.path, fun x hx => hP.path ▸ hn1 x hx, fun x hx => hP.path ▸ hn2 x hx⟩
+    have hpinv : ∀ s' : HtmlSt, s'.visitor = (s.visitor.enter d).2 → s'.enter = (s.visitor.enter d).1.1 →
+        s'.leave = (s.visitor.enter d).1.2.1 → PInv P s' :=
+      fun s' e1 e2 e3 => ⟨by rw [e1]; exact hpath.trans hP.path, fun x hx => hP.path ▸ hn1 x (e2 ▸ hx),
+        fun x hx => hP.path ▸ hn2 x (e3 ▸ hx)⟩
     by_cases hb : (s.visitor.enter d).1.2.2.1 = true
     · rw [if_pos hb]
-      exact ⟨hst, hpinv _, by simp [flat_cons], hlen⟩
+      exact ⟨hst, hpinv _ rfl rfl rfl, by simp [flat_cons], hlen⟩
     · rw [if_neg hb]
-      exact ⟨hst, hpinv _, rfl, hlen⟩
+      exact ⟨hst, hpinv _ rfl rfl rfl, rfl, hlen⟩
   · rw [if_neg he, if_neg he]
     exact ⟨rfl, hP, rfl, by simp⟩
 
@@ -261,22 +262,23 @@ theorem onEnd_len {tk : Tokenize} (hl : Lossless tk) (ev : Bytes → Bytes → B
   obtain ⟨hn1, hn2⟩ := leave_names tk ev s.visitor buffer
   by_cases hlv : s.leave = some n
   · simp only [if_pos hlv]
-    have hpinv : ∀ stk, PInv P ({ s with enter := (s.visitor.leave tk ev buffer).1.1,
-        leave := (s.visitor.leave tk ev buffer).1.2.1, visitor := (s.visitor.leave tk ev buffer).2, stack := stk } : HtmlSt) :=
-      fun stk => ⟨hpath.trans hP.path, fun x hx => hP.path ▸ hn1 x hx, fun x hx => hP.path ▸ hn2 x hx⟩
+    have hpinv : ∀ s' : HtmlSt, s'.visitor = (s.visitor.leave tk ev buffer).2 →
+        s'.enter = (s.visitor.leave tk ev buffer).1.1 → s'.leave = (s.visitor.leave tk ev buffer).1.2.1 → PInv P s' :=
+      fun s' e1 e2 e3 => ⟨by rw [e1]; exact hpath.trans hP.path, fun x hx => hP.path ▸ hn1 x (e2 ▸ hx),
+        fun x hx => hP.path ▸ hn2 x (e3 ▸ hx)⟩
     by_cases htm : topMatches s.stack n = true
     · simp only [htm, if_true] at hbuf ⊢
-      refine ⟨hst, hpinv _, ?_⟩
+      refine ⟨hst, hpinv _ rfl rfl rfl, ?_⟩
       unfold Kl; unfold Kl at hlen; omega
     · simp only [htm, Bool.false_eq_true, if_false] at hbuf ⊢
-      refine ⟨hst, hpinv _, ?_⟩
+      refine ⟨hst, hpinv _ rfl rfl rfl, ?_⟩
       unfold Kl; omega
   · simp only [if_neg hlv]
     by_cases htm : topMatches s.stack n = true
     · simp only [htm, if_true] at hbuf ⊢
-      exact ⟨rfl, ⟨hP.path, hP.enter, hP.leave⟩, by omega⟩
+      exact ⟨(by first | rfl | trivial), ⟨hP.path, hP.enter, hP.leave⟩, by omega⟩
     · simp only [htm, Bool.false_eq_true, if_false] at hbuf ⊢
-      exact ⟨rfl, hP, by omega⟩
+      exact ⟨(by first | rfl | trivial), hP, by omega⟩
 
 theorem push_len {P : List Bytes} (s : HtmlSt) (out d : Bytes) (hP : PInv P s) :
     (push s out d).1.visitor = s.visitor ∧ PInv P (push s out d).1 ∧
@@ -291,15 +293,16 @@ theorem push_len {P : List Bytes} (s : HtmlSt) (out d : Bytes) (hP : PInv P s) :
 /-- the tag tokens whose name is on the path -/
 def onPath (P : List Bytes) (t : Tok) : Bool := isTagKind t.kind && P.contains t.name
 
+theorem onPath_of {P : List Bytes} {t : Tok} (hk : isTagKind t.kind = true) (h : t.name ∈ P) : onPath P t = true := by
+  simp [onPath, hk, h]
+
 theorem stepTok_len {tk : Tokenize} (hl : Lossless tk) (ev : Bytes → Bytes → Bool) {P : List Bytes} (s : HtmlSt)
     (out : Bytes) (t : Tok) (hP : PInv P s) :
     (stepTok tk ev (s, out) t).1.visitor.static = s.visitor.static ∧ PInv P (stepTok tk ev (s, out) t).1 ∧
     (ledger (stepTok tk ev (s, out) t).1 (stepTok tk ev (s, out) t).2).length ≤
       (ledger s out).length + t.raw.length + (if onPath P t then s.visitor.content.length else 0) := by
-  have hmemE : ∀ {s' : HtmlSt}, PInv P s' → s'.enter = some t.name → P.contains t.name = true := by
-    intro s' h he; simpa using h.enter _ he
-  have hmemL : ∀ {s' : HtmlSt}, PInv P s' → s'.leave = some t.name → P.contains t.name = true := by
-    intro s' h he; simpa using h.leave _ he
+  have hmemE : ∀ {s' : HtmlSt}, PInv P s' → s'.enter = some t.name → t.name ∈ P := fun h he => h.enter _ he
+  have hmemL : ∀ {s' : HtmlSt}, PInv P s' → s'.leave = some t.name → t.name ∈ P := fun h he => h.leave _ he
   have hled : ∀ (s' : HtmlSt) (o : Bytes), (ledger s' o).length = o.length + (flat s'.stack).length := by
     intro s' o; simp [ledger]
   cases hk : t.kind with
@@ -327,8 +330,8 @@ theorem stepTok_len {tk : Tokenize} (hl : Lossless tk) (ev : Bytes → Bytes →
           rw [hK.2]; split <;> omega
         omega
       · rw [if_neg hon]
-        have hne : ¬ s.enter = some t.name := fun e => hon (by simp [onPath, hk, isTagKind, hmemE hP e])
-        have hnl : ¬ s1.leave = some t.name := fun e => hon (by simp [onPath, hk, isTagKind, hmemL a2 e])
+        have hne : ¬ s.enter = some t.name := fun e => hon (onPath_of (by simp [hk, isTagKind]) (hmemE hP e))
+        have hnl : ¬ s1.leave = some t.name := fun e => hon (onPath_of (by simp [hk, isTagKind]) (hmemL a2 e))
         rw [if_neg hne] at a4
         rw [if_neg hnl] at b3
         omega
@@ -342,7 +345,7 @@ theorem stepTok_len {tk : Tokenize} (hl : Lossless tk) (ev : Bytes → Bytes →
           have := Ke_add_Kl s.visitor; split <;> omega
         omega
       · rw [if_neg hon]
-        have hne : ¬ s.enter = some t.name := fun e => hon (by simp [onPath, hk, isTagKind, hmemE hP e])
+        have hne : ¬ s.enter = some t.name := fun e => hon (onPath_of (by simp [hk, isTagKind]) (hmemE hP e))
         rw [if_neg hne] at a4
         omega
   | endTag =>
@@ -360,7 +363,7 @@ theorem stepTok_len {tk : Tokenize} (hl : Lossless tk) (ev : Bytes → Bytes →
         have := Ke_add_Kl s.visitor; split <;> omega
       omega
     · rw [if_neg hon]
-      have hnl : ¬ s.leave = some t.name := fun e => hon (by simp [onPath, hk, isTagKind, hmemL hP e])
+      have hnl : ¬ s.leave = some t.name := fun e => hon (onPath_of (by simp [hk, isTagKind]) (hmemL hP e))
       rw [if_neg hnl] at b3
       omega
   | selfClosing =>
@@ -385,8 +388,8 @@ theorem stepTok_len {tk : Tokenize} (hl : Lossless tk) (ev : Bytes → Bytes →
         rw [hK.2]; split <;> omega
       omega
     · rw [if_neg hon]
-      have hne : ¬ s.enter = some t.name := fun e => hon (by simp [onPath, hk, isTagKind, hmemE hP e])
-      have hnl : ¬ s1.leave = some t.name := fun e => hon (by simp [onPath, hk, isTagKind, hmemL a2 e])
+      have hne : ¬ s.enter = some t.name := fun e => hon (onPath_of (by simp [hk, isTagKind]) (hmemE hP e))
+      have hnl : ¬ s1.leave = some t.name := fun e => hon (onPath_of (by simp [hk, isTagKind]) (hmemL a2 e))
       rw [if_neg hne] at a4
       rw [if_neg hnl] at b3
       omega
